@@ -9,7 +9,8 @@ def run(tier, seed):
         mc_actions_by_module={"MonBroadcast": ("UserBroadcast", "Handle", "Notice")},
         profiles=[("default", 2, 200), ("tamper", 2, 120), ("crash", 2, 80), ("asyncreest", 2, 120), ("async", 2, 40), ("default", 3, 40)],
         thorough_profiles=[("default", 2, 2000), ("tamper", 2, 1200), ("crash", 2, 1000), ("asyncreest", 2, 1500), ("async", 2, 800), ("default", 3, 400), ("crash", 3, 300)],
-        families=[("asynccross", 250), ("inflight", 150), ("monbcast", 200), ("asyncsign", 200)], thorough_families=[("asynccross", 2500), ("inflight", 1500), ("monbcast", 1500), ("asyncsign", 1500)],
+        families=[("asynccross", 250), ("inflight", 150), ("monbcast", 200), ("asyncsign", 200), ("tampercs", 150)],
+        thorough_families=[("asynccross", 2500), ("inflight", 1500), ("monbcast", 1500), ("asyncsign", 1500), ("tampercs", 1500)],
         extra_parts=[("unbounded-counters (Apalache)", counters_apalache.run_part)],
         assumptions=cc.COMMON_ASSUMPTIONS + [
             "broadcast commitments are identified by txid (known from the monitor updates) and must not be older than the last revocation released; HTLC transactions built on them are covered by the on-chain checks"])
